@@ -10,8 +10,15 @@ open SoyVerif.Spec
 theorem isWs_eq (b : UInt8) : isWs b = (isSpace b || isEndOfLine b) := by
   simp [isWs, isSpace, isEndOfLine, Bool.or_assoc]
 theorem isNL_eq (b : UInt8) : isNL b = isEndOfLine b := rfl
-theorem tight_eq (b : UInt8) : tight b = isTightJoiner b := by
-  simp [tight, isTightJoiner, Bool.or_comm, Bool.or_assoc, Bool.or_left_comm]
+theorem tight_eq (b : UInt8) : tight b = isTightJoiner b := rfl
+
+/-- `tight` on the byte before a run, `none` = there is none (the run is at the start of the text:
+    the state machine's `noChar`) -/
+def tightO : Option UInt8 → Bool
+  | none => true
+  | some b => tight b
+
+theorem tightO_eq (p : Option UInt8) : tightO p = isTightJoinerO p := by cases p <;> rfl
 
 /-- well-formed token lists: non-empty tokens, alternating kinds -/
 def WF : List Tok → Prop
@@ -47,15 +54,40 @@ theorem tokenize_wf : ∀ s : Bytes, WF (tokenize s)
 
 /-- the rendering of a whitespace run in progress: `w0` seen so far, `nl` = it contains a
     line break (or it is the phantom run of trimBefore), `p` = byte before the run -/
-def contRun (ta : Bool) (p : UInt8) (nl : Bool) (w0 : Bytes) : List Tok → Bytes
+def contRun (ta : Bool) (p : Option UInt8) (nl : Bool) (w0 : Bytes) : List Tok → Bytes
   | [] => if !nl && !ta then w0 else []
   | [Tok.ws w] => if !(nl || hasNL w) && !ta then w0 ++ w else []
   | Tok.ws w :: Tok.chunk c :: ts =>
-      (if !(nl || hasNL w) then w0 ++ w else if tight p || tight (firstByte c) then [] else [32]) ++ c ++ renderRest ta (lastByte c) ts
+      (if !(nl || hasNL w) then w0 ++ w else if tightO p || tight (firstByte c) then [] else [32]) ++ c ++ renderRest ta (lastByte c) ts
   | Tok.chunk c :: ts =>
-      (if !nl then w0 else if tight p || tight (firstByte c) then [] else [32]) ++ c ++ renderRest ta (lastByte c) ts
+      (if !nl then w0 else if tightO p || tight (firstByte c) then [] else [32]) ++ c ++ renderRest ta (lastByte c) ts
   | Tok.ws _ :: Tok.ws _ :: _ => []
 
+
+/-- `renderRest` with an optional byte before (proof device: the state machine's `lastChar`
+    before the first chunk is `noChar`) -/
+def renderRestO (ta : Bool) (p : Option UInt8) : List Tok → Bytes
+  | [] => []
+  | [Tok.ws w] => edgeWs ta w
+  | Tok.ws w :: Tok.chunk c :: ts =>
+      (if !hasNL w then w else if tightO p || tight (firstByte c) then [] else [32]) ++ c ++ renderRest ta (lastByte c) ts
+  | Tok.chunk c :: ts => c ++ renderRest ta (lastByte c) ts
+  | Tok.ws _ :: Tok.ws _ :: _ => []
+
+theorem renderRestO_some (ta : Bool) (b : UInt8) (toks : List Tok) (wf : WF toks) :
+    renderRestO ta (some b) toks = renderRest ta b toks := by
+  cases toks with
+  | nil => rfl
+  | cons t ts =>
+    cases t with
+    | chunk c => simp [renderRestO, renderRest]
+    | ws w =>
+      cases ts with
+      | nil => simp [renderRestO, renderRest]
+      | cons t2 ts2 =>
+        cases t2 with
+        | ws w2 => simp [WF] at wf
+        | chunk c => simp [renderRestO, renderRest, innerWs, tightO]
 
 theorem lastByte_cons (b : UInt8) (c : Bytes) (h : c ≠ []) : lastByte (b :: c) = lastByte c := by
   cases c with
@@ -80,12 +112,12 @@ theorem tok_chunk (b : UInt8) (r : Bytes) (c : Bytes) (ts : List Tok) (h : token
 
 theorem loopB (ta : Bool) : ∀ rest : Bytes,
     (∀ st : AState, st.inRun = false →
-        aLoop ta rest st = st.out ++ renderRest ta st.lastChar (tokenize rest)) ∧
+        aLoop ta rest st = st.out ++ renderRestO ta st.lastChar (tokenize rest)) ∧
     (∀ st : AState, st.inRun = true →
         aLoop ta rest st = st.out ++ contRun ta st.charBeforeTrim st.seenNewline st.run (tokenize rest))
   | [] => by
     constructor
-    · intro st h; simp [aLoop, aFinal, h, tokenize, renderRest]
+    · intro st h; simp [aLoop, aFinal, h, tokenize, renderRestO]
     · intro st h
       simp only [aLoop, aFinal, h, tokenize, contRun, Bool.and_true]
       by_cases hc : (!st.seenNewline && !ta) = true
@@ -106,7 +138,7 @@ theorem loopB (ta : Bool) : ∀ rest : Bytes,
         cases ht : tokenize r with
         | nil =>
           rw [tok_nil b r ht]
-          cases ta <;> cases h1 : isEndOfLine b <;> simp [hw, contRun, renderRest, edgeWs, h1]
+          cases ta <;> cases h1 : isEndOfLine b <;> simp [hw, contRun, renderRest, renderRestO, edgeWs, h1]
         | cons t ts =>
           rw [ht] at wf
           cases t with
@@ -114,30 +146,30 @@ theorem loopB (ta : Bool) : ∀ rest : Bytes,
             rw [tok_ws b r w ts ht]
             simp only [hw, if_true]
             cases ts with
-            | nil => cases ta <;> cases h1 : isEndOfLine b <;> cases h2 : hasNL w <;> simp [contRun, renderRest, edgeWs, h1, h2]
+            | nil => cases ta <;> cases h1 : isEndOfLine b <;> cases h2 : hasNL w <;> simp [contRun, renderRest, renderRestO, edgeWs, h1, h2]
             | cons t2 ts2 =>
               cases t2 with
               | ws w2 => simp [WF] at wf
-              | chunk c => cases h1 : isEndOfLine b <;> cases h2 : hasNL w <;> simp [contRun, renderRest, innerWs, h1, h2]
+              | chunk c => cases h1 : isEndOfLine b <;> cases h2 : hasNL w <;> simp [contRun, renderRest, renderRestO, innerWs, h1, h2]
           | chunk c =>
             rw [tok_chunk b r c ts ht]
-            cases h1 : isEndOfLine b <;> simp [hw, contRun, renderRest, innerWs, h1]
+            cases h1 : isEndOfLine b <;> simp [hw, contRun, renderRest, renderRestO, innerWs, h1]
       · have hw : isWs b = false := by rw [isWs_eq]; simpa using hb
         simp only [hb, if_false, Bool.false_eq_true]
-        rw [ihI _ rfl]
+        rw [ihI _ rfl, renderRestO_some ta b _ wf]
         cases ht : tokenize r with
-        | nil => rw [tok_nil b r ht]; simp [hw, renderRest, lastByte]
+        | nil => rw [tok_nil b r ht]; simp [hw, renderRest, renderRestO, lastByte]
         | cons t ts =>
           rw [ht] at wf
           cases t with
-          | ws w => rw [tok_ws b r w ts ht]; simp [hw, renderRest, lastByte]
+          | ws w => rw [tok_ws b r w ts ht]; simp [hw, renderRest, renderRestO, lastByte]
           | chunk c =>
             have hc : c ≠ [] := by
               cases ts with
               | nil => simpa [WF] using wf
               | cons t2 ts2 => cases t2 <;> simp_all [WF]
             rw [tok_chunk b r c ts ht]
-            simp [hw, renderRest, lastByte_cons b c hc]
+            simp [hw, renderRest, renderRestO, lastByte_cons b c hc]
     · intro st h
       unfold aLoop aStep aFlush
       by_cases hb : (isSpace b || isEndOfLine b) = true
@@ -147,7 +179,7 @@ theorem loopB (ta : Bool) : ∀ rest : Bytes,
             else if st.inRun = true ∧ isEndOfLine b = true then { st with run := st.run ++ [b], seenNewline := true }
             else (let st1 := (if st.inRun = true then
                     (if (!st.seenNewline) = true then { st with out := st.out ++ st.run, inRun := false, run := [] }
-                     else if (!isTightJoiner st.charBeforeTrim && !isTightJoiner b) = true then
+                     else if (!isTightJoinerO st.charBeforeTrim && !isTightJoiner b) = true then
                        { st with out := st.out ++ [32], inRun := false, run := [] }
                      else { st with inRun := false, run := [] })
                   else st)
@@ -195,85 +227,85 @@ theorem loopB (ta : Bool) : ∀ rest : Bytes,
         have hfb : ∀ c : Bytes, firstByte (b :: c) = b := by intro c; simp [firstByte]
         simp only [h, h1, h2, and_false, if_false, if_true, Bool.false_eq_true, Bool.or_self]
         by_cases h3 : st.seenNewline = true
-        · by_cases h4 : (!isTightJoiner st.charBeforeTrim && !isTightJoiner b) = true
+        · by_cases h4 : (!isTightJoinerO st.charBeforeTrim && !isTightJoiner b) = true
           · simp only [h3, h4, Bool.not_true, Bool.false_eq_true, if_false, if_true]
-            rw [ihI _ rfl]
+            rw [ihI _ rfl, renderRestO_some ta b _ wf]
             cases ht : tokenize r with
-            | nil => rw [tok_nil b r ht]; simp_all [contRun, renderRest, tight_eq, lastByte, firstByte]
+            | nil => rw [tok_nil b r ht]; simp_all [contRun, renderRest, renderRestO, tight_eq, tightO_eq, lastByte, firstByte]
             | cons t ts =>
               rw [ht] at wf
               cases t with
-              | ws w => rw [tok_ws b r w ts ht]; simp_all [contRun, renderRest, tight_eq, lastByte, firstByte]
+              | ws w => rw [tok_ws b r w ts ht]; simp_all [contRun, renderRest, renderRestO, tight_eq, tightO_eq, lastByte, firstByte]
               | chunk c =>
                 have hc : c ≠ [] := by
                   cases ts with
                   | nil => simpa [WF] using wf
                   | cons t2 ts2 => cases t2 <;> simp_all [WF]
                 rw [tok_chunk b r c ts ht]
-                simp_all [contRun, renderRest, tight_eq, lastByte_cons b c hc, firstByte]
-          · have h4' : (!isTightJoiner st.charBeforeTrim && !isTightJoiner b) = false := by simpa using h4
+                simp_all [contRun, renderRest, renderRestO, tight_eq, tightO_eq, lastByte_cons b c hc, firstByte]
+          · have h4' : (!isTightJoinerO st.charBeforeTrim && !isTightJoiner b) = false := by simpa using h4
             simp only [h3, h4', Bool.not_true, Bool.false_eq_true, if_false]
-            rw [ihI _ rfl]
+            rw [ihI _ rfl, renderRestO_some ta b _ wf]
             cases ht : tokenize r with
-            | nil => rw [tok_nil b r ht]; simp_all [contRun, renderRest, tight_eq, lastByte, firstByte]
+            | nil => rw [tok_nil b r ht]; simp_all [contRun, renderRest, renderRestO, tight_eq, tightO_eq, lastByte, firstByte]
             | cons t ts =>
               rw [ht] at wf
               cases t with
-              | ws w => rw [tok_ws b r w ts ht]; simp_all [contRun, renderRest, tight_eq, lastByte, firstByte]
+              | ws w => rw [tok_ws b r w ts ht]; simp_all [contRun, renderRest, renderRestO, tight_eq, tightO_eq, lastByte, firstByte]
               | chunk c =>
                 have hc : c ≠ [] := by
                   cases ts with
                   | nil => simpa [WF] using wf
                   | cons t2 ts2 => cases t2 <;> simp_all [WF]
                 rw [tok_chunk b r c ts ht]
-                simp_all [contRun, renderRest, tight_eq, lastByte_cons b c hc, firstByte]
+                simp_all [contRun, renderRest, renderRestO, tight_eq, tightO_eq, lastByte_cons b c hc, firstByte]
         · have h3' : st.seenNewline = false := by simpa using h3
           simp only [h3', Bool.not_false, if_true]
-          rw [ihI _ rfl]
+          rw [ihI _ rfl, renderRestO_some ta b _ wf]
           cases ht : tokenize r with
-          | nil => rw [tok_nil b r ht]; simp_all [contRun, renderRest, lastByte, firstByte]
+          | nil => rw [tok_nil b r ht]; simp_all [contRun, renderRest, renderRestO, lastByte, firstByte]
           | cons t ts =>
             rw [ht] at wf
             cases t with
-            | ws w => rw [tok_ws b r w ts ht]; simp_all [contRun, renderRest, lastByte, firstByte]
+            | ws w => rw [tok_ws b r w ts ht]; simp_all [contRun, renderRest, renderRestO, lastByte, firstByte]
             | chunk c =>
               have hc : c ≠ [] := by
                 cases ts with
                 | nil => simpa [WF] using wf
                 | cons t2 ts2 => cases t2 <;> simp_all [WF]
               rw [tok_chunk b r c ts ht]
-              simp_all [contRun, renderRest, lastByte_cons b c hc, firstByte]
+              simp_all [contRun, renderRest, renderRestO, lastByte_cons b c hc, firstByte]
 
 
 theorem render_false (ta : Bool) (toks : List Tok) (wf : WF toks) :
-    render false ta toks = renderRest ta 0 toks := by
+    render false ta toks = renderRestO ta none toks := by
   cases toks with
   | nil => rfl
   | cons t ts =>
     cases t with
-    | chunk c => simp [render]
+    | chunk c => simp [render, renderRestO]
     | ws w =>
       cases ts with
-      | nil => cases ta <;> cases h : hasNL w <;> simp [render, renderRest, edgeWs, h]
+      | nil => cases ta <;> cases h : hasNL w <;> simp [render, renderRestO, edgeWs, h]
       | cons t2 ts2 =>
         cases t2 with
         | ws w2 => simp [WF] at wf
-        | chunk c => cases h : hasNL w <;> simp [render, renderRest, edgeWs, innerWs, h, tight]
+        | chunk c => cases h : hasNL w <;> simp [render, renderRestO, edgeWs, h, tightO]
 
 theorem render_true (ta : Bool) (toks : List Tok) (wf : WF toks) :
-    render true ta toks = contRun ta 0 true [] toks := by
+    render true ta toks = contRun ta none true [] toks := by
   cases toks with
   | nil => simp [render, contRun]
   | cons t ts =>
     cases t with
-    | chunk c => simp [render, contRun, renderRest, tight]
+    | chunk c => simp [render, contRun, tightO]
     | ws w =>
       cases ts with
       | nil => simp [render, contRun]
       | cons t2 ts2 =>
         cases t2 with
         | ws w2 => simp [WF] at wf
-        | chunk c => simp [render, contRun, renderRest, edgeWs, tight]
+        | chunk c => simp [render, contRun, edgeWs, tightO]
 
 theorem rawtextA_eq_joinLines (s : Bytes) (tb ta : Bool) : rawtextA s tb ta = joinLines s tb ta := by
   unfold rawtextA joinLines
